@@ -40,6 +40,8 @@ for ki in sorted(res):
     line = "%-7s %-50s %-22s tuples=%-8d wall=%.2fs%s" % ("ok", d["ptr"], d["drv"], d["c_calls"], d["wall"], " TIMED-OUT" if d["timed_out"] else "")
     for v in d["variants"]:
         line += "  %s:%d/%d" % (v["isa"], v["mismatches"], v["calls"])
+        if v.get("soft"):
+            line += "\n         sign-of-zero only in %d calls; first (case %d): %s" % (v["soft"], v["soft_first_case"], v["soft_desc"])
         if v["mismatches"]:
             bad += 1
             line = "MISMATCH" + line[7:] + "\n         first (case %d): %s" % (v["first_case"], v["desc"])
